@@ -206,6 +206,10 @@ def build_events():
         if full:
             ev[f"setpoll:{e.label}"] = (lambda fr=fr: _inspect(UBXReader.parse(fr, msgmode=3)))
         CLSID_OF[e.label] = e.clsid.hex()
+        if any(isinstance(v, tuple) and v[0] == "None" for v in e.pdict.values()) and L.special_of(e.mode, e.clsid) is None:
+            # a payload whose variable-by-size part is not a whole number of members
+            rag = ref.frame(e.clsid[0], e.clsid[1], pl + b"\x07")
+            ev[f"parse:{e.label}:ragged"] = (lambda rag=rag, mode=e.mode: _inspect(UBXReader.parse(rag, msgmode=mode)))
     ev["config_set"] = lambda: _inspect(UBXMessage.config_set(1, 0, [("CFG_UART1_BAUDRATE", 9600), (0x40530001, 115200)]))
     ev["config_del"] = lambda: _inspect(UBXMessage.config_del(2, 1, ["CFG_UART1_BAUDRATE", 0x40530001]))
     ev["config_poll"] = lambda: _inspect(UBXMessage.config_poll(0, 0, ["CFG_UART1_BAUDRATE", 0x40530001]))
@@ -335,6 +339,10 @@ def in_fork(fn, *args):
 
 def run_history(hist, digest=True):
     """(child) apply the events of hist in order; returns per-event results / fd output and the final digests."""
+    import logging
+    # behave like an application that has not configured logging: the harness's own root handler would
+    # otherwise swallow records that the library's loggers send to stderr via logging.lastResort
+    logging.getLogger().removeHandler(streams.LOGCAP)
     ev = events()
     results, fds = [], []
     for n in hist:
